@@ -90,6 +90,7 @@ def _plan_delays(ch):
             op["when"] = ["rel", 0.0]
         ops.append(op)
     # interleave a few special ops
+    late_add = ch.pick("late_add", [0, 100, 300, 0])
     if ch.flag("mode_stop", 0.5):
         pos = ch.choice("mode_stop_pos", len(ops) + 1)
         ops.insert(pos, {"op": "mode_stop", "when": ["rel", ch.pick("dt2", [0.0, 0.01, 0.1, 0.3])]})
@@ -101,7 +102,7 @@ def _plan_delays(ch):
         periodic.append({"interval": ch.pick("pint", [0.01, 0.05, 0.1, 0.3, 1.0 / 3, 0.7]),
                          "start": ch.pick("pstart", [0.0, 0.013, 0.2]),
                          "cancel_after": ch.pick("pcancel", [None, 0.35, 1.0, 2.05])})
-    return {"knobs": knobs, "ops": ops, "periodic": periodic}
+    return {"knobs": knobs, "ops": ops, "periodic": periodic, "late_add": late_add}
 
 
 def warm():
@@ -130,7 +131,27 @@ def execute(ctx, plan):
     loop = sim.loop
     model = Model()
     mode = m.modes["m1"]
+    late_add = plan.get("late_add")
+
+    def arm_late_add():
+        # a handler of the mode itself reacts to the mode's own stopped event by adding a delay to the mode's delay
+        # manager (what a delayed device control event listening to mode_<name>_stopped does): it belongs to the mode
+        # that is stopping and must never fire
+        if not late_add:
+            return
+
+        def on_stopped(**kwargs):
+            ctx.probe("delay_added_while_mode_stops")
+            t_add = loop.time()
+
+            def late_cb(**kw):
+                ctx.violation("fired_after_cancel", "delay added while the mode stopped", "a delay added to the mode's "
+                              "delay manager at %.6f by a handler of mode_m1_stopped fired at %.6f although its mode "
+                              "had stopped" % (t_add, loop.time()))
+            mode.delay.add(ms=late_add, callback=late_cb, name="late_add")
+        mode.add_mode_event_handler("mode_m1_stopped", on_stopped)
     mode.start()
+    arm_late_add()
     sim.run(0.01)
     assert mode.active
     mgrs = {"machine": m.delay, "mode": mode.delay}
@@ -202,6 +223,7 @@ def execute(ctx, plan):
             if not mode_active[0] and not mode.active and not mode._starting and not mode.stopping:
                 ctx.log("mode_start", t=now)
                 mode.start()
+                arm_late_add()
                 mode_active[0] = True
             return
         mgrname = op["mgr"]
@@ -376,6 +398,9 @@ def execute(ctx, plan):
         if not (lo <= st["k"] <= exp):
             ctx.violation("tick_count", "periodic", "periodic %r ticked %d times between %.6f and %.6f, expected %d..%d"
                           % (p, st["k"], st["t0"], stop_t, lo, exp))
+    if not mode.active and not mode.stopping and mode.delay.delays:
+        ctx.violation("check_untruthful", "mode_leftover", "the mode has stopped but its delay manager still holds %r"
+                      % sorted(mode.delay.delays))
     for nm in set(m.delay.delays.keys()) - base_machine_delays:
         if nm not in model.pending["machine"]:
             ctx.violation("check_untruthful", "leftover", "delay %s still registered but not in model" % nm)
